@@ -11,7 +11,7 @@ ASSUMPTIONS = ["numpy on one row is the reference (np.cumsum / ufunc.accumulate 
                "values only; no NaN (numpy's own NaN conventions for sort/unique are outside the statement)",
                "cumsum on bool / float input is documented as rejected by the library: refusal or the right answer are both accepted"]
 REQUIRED_FEATURES = ["empty_row_first", "empty_row_last", "all_rows_empty", "zero_rows", "duplicates_across_row_boundary",
-                     "diff_order_exceeds_row", "unique_counts", "accumulate", "same_object_sequence", "close_64bit_values"]
+                     "diff_order_exceeds_row", "unique_counts", "accumulate", "same_object_sequence", "close_64bit_values", "infinite_values"]
 BOUNDS = {"quick": "LV(4,3) x {bool,int8,int64,uint8,uint64,float64} x 3 patterns x {cumsum (method, function), add/subtract/xor.accumulate, "
                    "sort (method), unique, unique+counts, diff n=0..4}; operand unchanged; axis=1 spellings and defaults; 64-bit neighbours beyond 2**53 for sort / unique; same-object sequences of 12 operations (contiguous and pending view); named float inputs of the known finding",
           "thorough": "LV(5,3) u LV(3,5), plus int16/int32/float32, diff n=0..6"}
@@ -56,6 +56,10 @@ def cases(shard, tier):
         if dt in CLOSE64:
             for op in ("sort_m", "sort_default", "unique", "unique_c"):
                 yield [lens, dt, "close64", op]
+        if dt == "float64":
+            # +-inf (they sort beyond every finite padding value)
+            for op in ("sort_m", "sort_default", "unique", "unique_c"):
+                yield [lens, dt, "infs", op]
         if dt in ("int64", "uint8"):
             # one object asked again and again (contiguous, and as a selection nothing has read yet)
             yield [lens, dt, 0, "seq_contig"]
@@ -129,7 +133,10 @@ def check(case, acc):
             acc.feature("empty_row_last")
         if size == 0:
             acc.feature("all_rows_empty")
-    if k == "close64":
+    if k == "infs":
+        acc.feature("infinite_values")
+        flat = np.array(([float("inf"), 1.0, -2.5, float("-inf"), 4.0, float("inf"), 2.0, 0.5] * (size // 8 + 1))[:size], dtype=dt)
+    elif k == "close64":
         acc.feature("close_64bit_values")
         flat = np.array((CLOSE64[dt] * (size // 8 + 1))[:size], dtype=dt)
     else:
